@@ -20,6 +20,9 @@ type Pkg struct {
 
 	DepFunc    int  `json:"dep_func,omitempty"`   // 0: F not deprecated; 1: deprecated; 2: same-length non-marker comment
 	DepMethod  int  `json:"dep_method,omitempty"` // method T.M: 0 not deprecated; 1 deprecated; 2 same-length non-marker comment
+	TwoFiles   bool `json:"two_files,omitempty"`  // a second source file with its own problems and a file-ignore directive
+	Generic    bool `json:"generic,omitempty"`    // generic helpers, instantiated here and by importers
+	IfaceUse   bool `json:"iface_use,omitempty"`  // a type whose methods are used only through an interface; an unused method next to it
 	IgnoreU    bool `json:"ignore_u1000,omitempty"` // a //lint:ignore U1000 directive on a line that declares several objects (two variables; a function with a parameter)
 	RecvMix    bool `json:"recvmix,omitempty"`    // with Test: the in-package test file adds a method with another receiver name (ST1016 only in the test variant) and the main file carries a //lint:ignore ST1016 directive
 	Pure       bool `json:"pure,omitempty"`       // Pure has no side effect (purity fact)
@@ -180,11 +183,28 @@ func (m *Mod) renderPkg(i int, out map[string]string) {
 	if p.Initialism {
 		w("// GetUrl returns a URL.\nfunc GetUrl() string { return \"\" }\n\n")
 	}
+	if p.Generic {
+		w("// Pick returns one of two values.\nfunc Pick[T any](a, b T, first bool) T {\n\tif first {\n\t\treturn a\n\t}\n\treturn b\n}\n\n")
+		w("// Pair is a generic pair.\ntype Pair[A, B any] struct {\n\tL A\n\tR B\n}\n\n// Swap swaps.\nfunc (p Pair[A, B]) Swap() Pair[B, A] { return Pair[B, A]{p.R, p.L} }\n\n")
+		w("func usePick() int {\n\tq := Pair[int, string]{1, \"a\"}.Swap()\n\tq.L = q.L\n\treturn Pick(q.R, 2, true)\n}\n\n")
+		w("// UsePick uses the generic helpers.\nfunc UsePick() int { return usePick() }\n\n")
+	}
+	for _, d := range p.Imports {
+		if m.Pkgs[d].Generic {
+			w("// Via%s instantiates generic helpers of a dependency.\nfunc Via%s() int {\n\tv := %s.Pair[int, int]{L: 1, R: 2}.Swap()\n\treturn %s.Pick(v.L, v.R, false)\n}\n\n", pkgName(d), pkgName(d), pkgName(d), pkgName(d))
+		}
+	}
+	if p.IfaceUse {
+		w("type shower interface{ show() int }\n\ntype box struct{ v int }\n\nfunc (b box) show() int { return b.v }\n\nfunc (b box) hidden() int { return -b.v }\n\n// Show uses box through an interface only.\nfunc Show() int {\n\tvar s shower = box{v: 1}\n\treturn s.show()\n}\n\n")
+	}
 	if p.RangeInt {
 		w("// R ranges over an int.\nfunc R() int {\n\tn := 0\n\tfor i := range 3 {\n\t\tn += i\n\t}\n\treturn n\n}\n\n")
 	}
 	out[name+"/"+name+".go"] = b.String()
 
+	if p.TwoFiles {
+		out[name+"/"+name+"_b.go"] = fmt.Sprintf("//lint:file-ignore SA4018 second file exception\n\npackage %s\n\n// Second lives in the second file.\nfunc Second() int {\n\ty := %d\n\ty = y\n\tif y == y {\n\t\ty++\n\t}\n\treturn y + helper()\n}\n\nfunc secondUnused() int { return 2 }\n", name, 1+p.Body)
+	}
 	if p.Test {
 		extra := ""
 		if p.RecvMix {
@@ -283,6 +303,9 @@ func Generate(r *Rng, npkg int, shape string, tests bool) *Mod {
 			Initialism: r.P(300),
 			RangeInt:   r.P(150),
 			IgnoreU:    r.P(250),
+			TwoFiles:   r.P(300),
+			Generic:    r.P(300),
+			IfaceUse:   r.P(300),
 			TagFile:    r.P(200),
 			OSFiles:    r.P(200),
 		}
